@@ -170,6 +170,10 @@ def run_one(seed: int, api: str, prov, ch: explorer.Chooser):
     name, tokens, complete_after = prov
     log: t.Dict[str, t.Any] = dict(client_pdus=[], actions=[], server_tokens=[], provider=None, ack_sign_flags=[])
     dc = ScriptDC(w["rk"], ch, log)
+    # how the server's PDUs reach the client is not the subject here, but it must not matter: per provider, whole PDUs, 7-octet or 100-octet segments
+    seg = (0, 7, 100)[sum(map(ord, name)) % 3]
+    if seg:
+        dc.segment = lambda reply, seg=seg: [reply[i : i + seg] for i in range(0, len(reply), seg)]
 
     def factory(u, p, **kw):
         c = secctx.ScriptedContext(tokens, 16, complete_after=complete_after)
